@@ -13,8 +13,8 @@ namespace Driver.Slice
 open StVerif StVerif.Slice StVerif.Search Driver
 open StVerif.Spec
 
-/-- the revision of the code the driver follows (pinned tree until the repairs land) -/
-def rev : Rev := .pinned
+/-- the revision of the code the driver follows (the repaired tree) -/
+def rev : Rev := .fixed
 
 def showRes (r : Res) : String := s!"{fmtUnits 8 r.bytes} alloc={r.alloc}"
 def showO (o : Outcome Res) : String := fmtOutcome showRes o
